@@ -114,6 +114,10 @@ struct World {
     std::string exc;                // exception that escaped runLoop()
     bool client_open = false;
     uint64_t last_rx_pass = 0;
+    size_t bytes_sent = 0;          // by the client so far
+    size_t max_deliveries = 0;      // 0 = derive from bytes_sent (no request is shorter than 16 bytes)
+    std::string redelivery;         // non-empty: the handlers were called more often than requests were sent (text = what was seen)
+    std::string short_body;         // non-empty: a request reached the handler with a body that is not as long as its decimal Content-Length
     int client_port = 0;            // local port of the client socket (to find the server's end of the connection from outside)
     bool unjudged = false;          // the kernel never became quiescent: no verdict about things that "never happened"
 
@@ -131,6 +135,10 @@ struct World {
 };
 
 World *g_w = nullptr;
+
+//! thrown by the first handler stage to get out of a server that keeps handing out requests nobody sent (the loop thread would
+//! otherwise never leave the receive callback); caught around runLoop(), after which the server is never touched again
+struct HarnessAbort {};
 
 int g_port_counter = 0;
 
@@ -171,6 +179,19 @@ void handler1(ContextSptr ctx, const NextFunc &next) {
     w.delivered.push_back(World::Delivered{k, canon(ctx->req()), xo, w.pass_no});
     g_req_index[&ctx->req()] = k;
     vh::counter("srv_requests_delivered");
+    {
+        std::string declared;
+        if (w.short_body.empty() && !declared_length_honoured(ctx->req(), &declared))
+            w.short_body = vh::fmt("request %d reached the handler with Content-Length %s and a body of %zu bytes", k, declared.c_str(), ctx->req().body.size());
+        size_t bound = w.max_deliveries ? w.max_deliveries : w.bytes_sent / 16 + 1;
+        if (w.delivered.size() > bound && w.redelivery.empty()) {
+            bool same = k > 0 && w.delivered[k].canon == w.delivered[k - 1].canon;
+            w.redelivery = vh::fmt("%s%zu requests handed to the handler inside pass %llu although the client had sent %zu bytes (at most %zu requests); last one {%s}",
+                                   same ? "same request again: " : "", w.delivered.size(), (unsigned long long)w.pass_no, w.bytes_sent, bound, brief(w.delivered[k].canon, 160).c_str());
+            if (same) w.redelivery = "more-than-once|" + w.redelivery;
+            throw HarnessAbort();
+        }
+    }
     Plan p = w.plan_for(k);
     if (p.stage == 0) {
         if (p.delay == 0) { vh::counter("srv_completed_inside_callback"); complete(w, k, ctx); }
@@ -372,7 +393,7 @@ bool client_write(World &w, const std::string &seg) {
     int stalls = 0;
     while (off < seg.size()) {
         ssize_t n = ::send(w.cfd, seg.data() + off, seg.size() - off, MSG_NOSIGNAL);
-        if (n > 0) { off += (size_t)n; stalls = 0; continue; }
+        if (n > 0) { off += (size_t)n; w.bytes_sent += (size_t)n; stalls = 0; continue; }
         if (n < 0 && errno == EINTR) continue;
         if (n < 0 && (errno == EAGAIN || errno == EWOULDBLOCK)) {
             if (++stalls > 4000) { w.unjudged = true; return false; }
@@ -461,6 +482,7 @@ void run_script(const Script &sc, vh::Rng &r, vh::Sig &sig, const char *mode) {
     w.plans = sc.plans;
     w.close_idx = sc.close_idx;
     g_read_limit = sc.read_limit;
+    w.max_deliveries = sc.reqs.size();
     std::string stream;
     for (auto &t : sc.reqs) stream += t.wire;
     sig.add(stream);
@@ -536,7 +558,9 @@ void run_script(const Script &sc, vh::Rng &r, vh::Sig &sig, const char *mode) {
     const bool close_seen_by_server = sc.close_idx >= 0 && (int)w.delivered.size() > sc.close_idx;
     const char *phase = close_seen_by_server ? "after-closing-request-received" : "keep-alive";
 
-    if (!w.exc.empty()) {
+    if (!w.redelivery.empty()) {
+        vh::viol("pipeline/request-invented", (w.redelivery.compare(0, 15, "more-than-once|") == 0 ? w.redelivery.substr(15) : w.redelivery) + "; " + where());
+    } else if (!w.exc.empty()) {
         vh::viol("pipeline/exception-out-of-runloop/" + w.exc, "well-formed pipeline: " + where());
     } else if (w.unjudged) {
         vh::counter("env_unjudged_kernel_not_quiescent");
@@ -797,7 +821,12 @@ void case_live(vh::Rng &r) {
     GenOpts o; o.max_body = 40;
     int lead = (int)r.range(0, 2);
     for (int i = 0; i < lead; ++i) bytes += gen_request(r, i, o, r.chance(1, 6) ? 1 : 0).wire;
-    if (r.chance(3, 5)) {
+    if (r.chance(1, 8)) {
+        std::string cls; bool tail = false;
+        bytes += boundary_length_stream(r, lead, &what, &cls, &tail);
+        vh::counter("live_cl_" + cls);
+        vh::counter(tail ? "live_cl_boundary_with_bytes_following" : "live_cl_boundary_without_body");
+    } else if (r.chance(3, 5)) {
         std::vector<Truth> v;
         int m = (int)r.range(1, 3);
         for (int i = 0; i < m; ++i) v.push_back(gen_request(r, lead + i, o, r.chance(1, 5) ? 1 : 0));
@@ -838,7 +867,12 @@ void case_live(vh::Rng &r) {
     if (w.eof || w.reset) vh::counter("live_server_dropped_connection");
     if (!w.responses.empty()) vh::counter("live_responses_received", w.responses.size());
     vh::counter("live_cases");
-    if (!w.exc.empty())
+    if (!w.redelivery.empty()) {
+        bool same = w.redelivery.compare(0, 15, "more-than-once|") == 0;
+        vh::viol(same ? "live/request-delivered-more-than-once" : "live/more-requests-delivered-than-sent", same ? w.redelivery.substr(15) : w.redelivery);
+    } else if (!w.short_body.empty())
+        vh::viol("live/delivered-body-differs-from-declared-length", w.short_body);
+    else if (!w.exc.empty())
         vh::viol("live/exception-out-of-runloop/" + w.exc, vh::fmt("after %llu passes, %zu requests delivered", (unsigned long long)w.pass_no, w.delivered.size()));
     if (vh::st().args.first == 0 && vh::want_sample(1)) vh::sample("{\"mode\":\"live\",\"edits\":" + vh::jstr(what) + ",\"bytes\":" + vh::jstr(bytes.substr(0, 200)) + ",\"delivered\":" +
                                        std::to_string(w.delivered.size()) + ",\"responses\":" + std::to_string(w.responses.size()) + "}", 1);
